@@ -36,7 +36,7 @@ RULE = ("cases: (a) FAST streams of 3-12 frames (-L:/ /L: switch reports, SA: re
         "(delimiter E); (c) OPP polls (input frames 7 bytes, matrix frames 11 bytes, EOM) for 1-3 cards incl. unknown "
         "cards, with payload/CRC corruptions, header corruptions, garbage runs, truncations, and a resync stream "
         "(garbage + 11 EOM + valid frames); (d) writer schedules over send_with_confirmation/send_and_forget/run/"
-        "confirmation-received, both free and disciplined. non-trivial = more than one chunk and (a corruption, a "
+        "confirmation-received, both free and disciplined; (e) send_and_wait_for_response_processed under time-outs/responses on a virtual clock. non-trivial = more than one chunk and (a corruption, a "
         "malformed frame, lost synch, or >= 2 frames); distinct = canonical JSON of (kind, stream, chunking)")
 TRUSTED = [
     "Model/Framing.lean is hand-written; tied to mpf/platforms/fast/communicators/{base,net_neuron}.py, "
@@ -399,8 +399,9 @@ def pk_run(chunks):
     for c in chunks:
         n0 = len(got)
         k0 = comm.messages_in_flight
+        e0 = len(escapes)
         pk_feed(comm, c, escapes)
-        per_chunk.append((got[n0:], bytes(comm.received_msg), k0 - comm.messages_in_flight))
+        per_chunk.append((got[n0:], bytes(comm.received_msg), k0 - comm.messages_in_flight, escapes[e0:].count("und")))
     return got, escapes, per_chunk, comm
 
 
@@ -444,19 +445,15 @@ def pk_case(ctx, r, model):
     if model is not None:
         for chunks, got, escapes, per_chunk, comm in results[:3]:
             model.ask("reset")
-            for c, (pgot, buf, nframes) in zip(chunks, per_chunk):
+            for c, (pgot, buf, nframes, nund) in zip(chunks, per_chunk):
                 ans = model.ask("pk " + c.hex()).split(" ")
-                mframes = [bytes.fromhex(t[1:]) if t != "m-" else b"" for t in ans[:-1]]
-                mvis = []
-                for f in mframes:
-                    try:
-                        s = f.decode()
-                    except UnicodeDecodeError:
-                        continue    # the implementation raises on these (reported above); nothing is delivered
-                    if s and s not in ignored:
-                        mvis.append(s)
+                mvis = [bytes.fromhex(t[1:]).decode() for t in ans[:-1] if t.startswith("m")]
+                mvis = [m for m in mvis if m not in ignored]
+                mframes = ans[:-1]
+                # frames the model calls undecodable: the implementation raises on them (reported above), delivers nothing
                 if not ctx.compare(dict(case, chunks=[x.hex() for x in chunks], what="pkone chunk " + c.hex()),
-                                   [pgot, "buf=" + (buf.hex() or "-"), nframes], [mvis, ans[-1], len(mframes)]):
+                                   [pgot, "buf=" + (buf.hex() or "-"), nframes, nund],
+                                   [mvis, ans[-1], len(mframes), mframes.count("und")]):
                     return
 
 
@@ -470,11 +467,12 @@ def opp_frame(addr, kind, value):
 
 
 def gen_opp(r):
-    cards = [("i", 0x20)]
+    first = r.choice([0x20, 0x20, 0x31, 0x3f])
+    cards = [("i", first)]
     if r.random() < 0.6:
-        cards.append(("i", 0x21))
+        cards.append(("i", r.choice([0x21, 0x3e])))
     if r.random() < 0.5:
-        cards.append(("m", r.choice([0x20, 0x22])))
+        cards.append(("m", r.choice([first, 0x22, 0x38])))
     items = []     # (bytes, meta)
     for _ in range(r.randint(2, 7)):
         for kind, addr in cards:
@@ -757,6 +755,87 @@ def writer_case(ctx, r, model, ops=None, disciplined=None):
                 return
 
 
+# ----------------------------------------------------------------------------------------------- lost response / retry
+class VLoop(asyncio.SelectorEventLoop):
+    """asyncio loop on a virtual clock (advanced by the harness only)"""
+
+    def __init__(self):
+        super().__init__()
+        self.vt = 0.0
+
+    def time(self):
+        return self.vt
+
+
+def retry_run(gate, max_retries, ops):
+    """real send_and_wait_for_response_processed + real writer task; ops: 'timeout' (1 s passes) | 'response'"""
+    loop = VLoop()
+    obs = []
+    try:
+        asyncio.set_event_loop(loop)
+
+        def spin():
+            for _ in range(6):
+                loop.run_until_complete(asyncio.sleep(0))
+        comm, sc, platform = make_fast()
+        w = FakeWriter()
+        comm.writer = w
+        wt = loop.create_task(comm._socket_writer())
+        if not gate:
+            comm.no_response_waiting.clear()      # an earlier command's response was lost
+        task = loop.create_task(comm.send_and_wait_for_response_processed("CH:2000,FF", "CH:", timeout=1,
+                                                                          max_retries=max_retries))
+
+        def look():
+            return "written=%d fin=%d gate=%d" % (w.log.count(b"CH:2000,FF\r"), 1 if task.done() else 0,
+                                                  1 if comm.no_response_waiting.is_set() else 0)
+        spin()
+        obs.append(look())
+        for op in ops:
+            if op == "timeout":
+                loop.vt += 1.0078125
+                spin()
+            else:
+                comm.parse_incoming_raw_bytes(b"CH:P\r")
+                spin()
+            obs.append(look())
+        err = repr(task.exception()) if task.done() and not task.cancelled() and task.exception() else None
+        for t in (task, wt):
+            t.cancel()
+        spin()
+        return obs, w.log.count(b"CH:2000,FF\r"), err
+    finally:
+        asyncio.set_event_loop(None)
+        loop.close()
+
+
+def retry_case(ctx, r, model, fixed=None):
+    gate, max_retries, ops = fixed or (r.random() < 0.6, r.choice([0, 1, 2, 3]),
+                                       [r.choice(["timeout", "timeout", "response"]) for _ in range(r.randint(1, 7))])
+    case = {"kind": "retry", "gate": gate, "max_retries": max_retries, "ops": ops}
+    ctx.count("retry_cases")
+    ctx.evaluated(case, True)
+    try:
+        obs, written, err = retry_run(gate, max_retries, ops)
+    except Exception as e:
+        ctx.fail("fast-retry-crash", case, {"error": repr(e)})
+        return
+    if err:
+        ctx.fail("fast-retry-crash", case, {"error": err})
+        return
+    # oracle: the command was handed over, its response never came, more than (max_retries + 1) time-outs passed:
+    # "a lost response is retried as configured" demands 1 + max_retries writes
+    lost = gate and "response" not in ops and ops.count("timeout") >= max_retries + 2
+    if lost and written < 1 + max_retries and max_retries > 0:
+        ctx.fail("fast-lost-response-not-retried", case, {"written": written, "expected_at_least": 1 + max_retries,
+                                                          "timeouts_passed": ops.count("timeout")})
+    if model is not None:
+        ans = [model.ask("rstart %d %d" % (1 if gate else 0, max_retries))]
+        for op in ops:
+            ans.append(model.ask("rtimeout" if op == "timeout" else "rresponse"))
+        ctx.compare(dict(case, what="retry observations"), obs, ans)
+
+
 # ----------------------------------------------------------------------------------------------- entry points
 D22_WITNESS = [(b"-L:0A", "sw"), (b"-L:G1", "malformed"), (b"-L:0B", "sw")]
 D7_WITNESS = [["c", 1, "DL:"], ["f", 2], ["run"]]
@@ -770,16 +849,19 @@ def run(ctx):
         fast_case(ctx, ctx.rng("w-und"), model, frames=[(b"-L:0A", "sw"), (b"-L:0\xff", "malformed"), (b"-L:0B", "sw")],
                   ncorr=0)
         writer_case(ctx, ctx.rng("w-d7"), model, ops=D7_WITNESS, disciplined=False)
-        for i in range(ctx.n(260, 4000)):
+        retry_case(ctx, ctx.rng("w-retry"), model, fixed=(True, 2, ["timeout"] * 5))
+        for i in range(ctx.n(700, 6000)):
             fast_case(ctx, ctx.rng("fast", i), model)
-        for i in range(ctx.n(120, 2000)):
+        for i in range(ctx.n(300, 3000)):
             pk_case(ctx, ctx.rng("pk", i), model)
-        for i in range(ctx.n(260, 4000)):
+        for i in range(ctx.n(700, 6000)):
             opp_case(ctx, ctx.rng("opp", i), model)
         for i in range(ctx.n(200, 3000)):
             crc_case(ctx, ctx.rng("crc", i), model)
-        for i in range(ctx.n(150, 2500)):
+        for i in range(ctx.n(400, 4000)):
             writer_case(ctx, ctx.rng("writer", i), model)
+        for i in range(ctx.n(80, 800)):
+            retry_case(ctx, ctx.rng("retry", i), model)
     finally:
         if model is not None:
             model.close()
@@ -820,6 +902,12 @@ def replay(ctx, rep):
         elif sig:
             ctx.fail(sig, case, {"note": "stream-level oracle; re-run ./check C14 with the same seed",
                                  "frames": [f.hex() for f in a[0]], "bad_crc": a[5].bad_crc["c"]})
+    elif case["kind"] == "retry":
+        obs, written, err = retry_run(case["gate"], case["max_retries"], case["ops"])
+        if err:
+            ctx.fail("fast-retry-crash", case, {"error": err})
+        elif written < 1 + case["max_retries"]:
+            ctx.fail("fast-lost-response-not-retried", case, {"written": written, "observations": obs})
     elif case["kind"] == "writer":
         obs, verdict = writer_run(case.get("shrunk") or case["ops"])
         if verdict["order"]:
